@@ -64,8 +64,8 @@ def _closure_parser(node):
     for c in apps:
         t = et.build(cf, c.args[0])
         g = peg(t)
-        if g[0] == "unknown":
-            return None
+        if g[0] == "unknown" and g != ("unknown", "token with non-literal argument"):
+            return None                      # (a token whose text is the helper's parameter stays recognisable: detect_param_token_rules)
         parts.append(g)
     return parts[0] if len(parts) == 1 else ("seq", parts)
 
